@@ -24,8 +24,8 @@ UNIT = "C01_expr"
 
 META_PART = {
     "unit": UNIT,
-    "technique": "Coq proof (value preservation of the transcribed emitter by induction over expressions, operator tables regenerated from parser.py and checked by reflection, one refuted theorem per guard clause) + extracted-model correspondence with the real _to_c_expr text and with the real emitted firmware under g++/mock core + firmware-vs-CPython oracle inside the extracted guard",
-    "level_text": "Theorems C01_* of coq/Props/C01_expr.v are proved for all expressions, environments and inputs about Gallina models of emit (ToC.v), of the emitted C++ (CSem.v: 32-bit int with explicit range guard, exact-rational float, Arduino macros) and of CPython (PySem.v); the tables _BIN/_UN/_CMP are regenerated from parser.py on every run; the models are run against the real _to_c_expr, the real firmware and CPython on generated expressions.",
+    "technique": "Coq proof (value preservation of the transcribed emitter by induction over expressions, operator tables regenerated from parser.py - the emitted form of every binary operator probed on parser._emit_binop - and checked by reflection, one refuted theorem per guard clause, positive theorems for the repaired // % **) + extracted-model correspondence with the real _to_c_expr text and with the real emitted firmware under g++/mock core + firmware-vs-CPython oracle inside the extracted guard",
+    "level_text": "Theorems C01_* of coq/Props/C01_expr.v are proved for all expressions, environments and inputs about Gallina models of emit (ToC.v), of the emitted C++ (CSem.v: 32-bit int with explicit range guard, exact-rational float, Arduino macros) and of CPython (PySem.v); the tables _BIN/_UN/_CMP and the form in which _emit_binop emits each operator (infix / helper template / rejected) are regenerated from parser.py on every run; the models are run against the real _to_c_expr, the real firmware and CPython on generated expressions.",
     "level_note": "Trusted: Coq kernel, translator harness/gen/optables.py, extraction, OCaml driver, g++ and the mock Arduino core as the definition of the device (int = 32 bit there; AVR's 16 bit int is not modelled), CPython 3.12 as the definition of Python. Floats are exact rationals in the models; generated floats are dyadic so that binary rounding does not show. Lists, subscripts, comprehensions, methods, user functions are outside the transcribed fragment (NotModelled, counted).",
     "design_ref": "DESIGN.md section 4 C01, Appendix B",
 }
@@ -603,14 +603,14 @@ def run_unit(ctx: C.Ctx):
     cov.update({
         "evaluations": n_eval,
         "distinct_nontrivial": len({s for s in text_srcs if any(c in s for c in "+-*/%<>=&|^( ")}) + len({(it[0], it[2]) for mm in meta for it in mm.values()}),
-        "rule": "text tie: seeded pyast_wire.gen_expr expressions (all node kinds, mostly ill-typed mixes, depth 1-4) + typed expressions + a fixed list of special forms, non-trivial = contains an operator or call; behaviour/oracle: typed generator (ints a b, float f=a/4.0, bool t=a>0, str s=str(b), depth 1-4, ~8% constructs outside the guard), environments a in A_VALUES x b in B_VALUES fed through analog_read, each (expression, environment) pair distinct; only expressions with a Python value and a model C value are put into sketches (40 per sketch, marker lines); the oracle (c) uses only those inside the extracted expr_guard whose float values are small dyadics",
+        "rule": "text tie: seeded pyast_wire.gen_expr expressions (all node kinds, mostly ill-typed mixes, depth 1-4) + typed expressions + a fixed list of special forms, non-trivial = contains an operator or call; behaviour/oracle: typed generator (ints a b, float f=a/4.0, bool t=a>0, str s=str(b), depth 1-4, ~8% constructs outside the guard; // and % with divisors of either sign, bool and float operands in both positions), a fixed // / % corpus (DIV_CORPUS x DIV_ENVS: every sign combination, exact and inexact division, int/bool/float operands; all of it must be inside expr_guard and is always run), environments a in A_VALUES x b in B_VALUES fed through analog_read, each (expression, environment) pair distinct; only expressions with a Python value and a model C value are put into sketches (40 per sketch, marker lines); the oracle (c) uses only those inside the extracted expr_guard whose float values are small dyadics",
         "samples": [text_srcs[0], text_srcs[len(loose)], typed[0][1], typed[1][1]] + [it[0] for it in runnable[:3]],
         "distribution": {**dist, "typed_kinds": dict(sorted(gen.kinds.items()))},
-        "guard": "expr_guard (coq/Lang/ToC.v, extracted): // and % on ints of equal sign or exact division, // on floats only with integral quotient, % not on floats, / with a float operand, no **, shift counts 0..31, and/or on bool operands only, both branches of a conditional / both arguments of min/max of the same kind (int-like or float or str), str()/f-string of int or str only (no bool, no float), no literal+literal / literal-compare, int(<str>) only of a String object or a single literal, len() of ASCII text, every int result within 32 bit, names bound to scalars; harness adds: float values small dyadics (binary rounding unmodelled)",
+        "guard": "expr_guard (coq/Lang/ToC.v, extracted): // and % on any numeric operands (int, bool, float, any signs; Python defines the value, so the divisor is not 0), / with a float operand, ** never translated (rejected), shift counts 0..31, and/or on bool operands only, both branches of a conditional / both arguments of min/max of the same kind (int-like or float or str), str()/f-string of int or str only (no bool, no float), no literal+literal / literal-compare, int(<str>) only of a String object or a single literal, len() of ASCII text, every int result within 32 bit, names bound to scalars; harness adds: float values small dyadics (binary rounding unmodelled)",
         "unmodelled": ["list literals, subscripts, comprehensions, method calls (device getters, list methods), user function calls: to_c answers NotModelled (counted in distribution.text_tie.not_modelled)",
                        "16-bit int of AVR (fits is 32 bit, the width of the g++/mock build)", "binary rounding of float/double (exact rationals; generated floats are dyadic)",
                        "float constants whose str() is not a short positional decimal (exponent form, 0.1)", "String.toFloat, String + number, non-printable pin strings",
-                       "order of evaluation of C++ operands other than left-to-right", "min/max with three or more arguments are translated and run (tie b) but outside the proved guard"],
+                       "order of evaluation of C++ operands other than left-to-right; the two arguments of the helper calls __redu_floordiv / __redu_mod are evaluated right to left by g++ (modelled so in CSem.ceval; observable only when both operands consume readings, which the proved fragment and the generators exclude)", "min/max with three or more arguments are translated and run (tie b) but outside the proved guard"],
         "trusted_base": C.COMMON_TRUSTED + ["harness/gen/optables.py (reads _BIN/_UN/_CMP/_BUILTIN_CALL_RETURN_TYPES from the imported parser module)",
                                             "harness/impl/c01_expr_impl.py (builds env/ctx as parse() does and calls the real _to_c_expr)",
                                             "harness/impl/transpile_impl.py, mock/ (Arduino core mock, String, macros), g++ 12", "harness/impl/pyrun_impl.py + CPython 3.12 (reference trace)", "harness/impl/pyeval_impl.py (CPython eval for PySem validation)"],
